@@ -11,13 +11,16 @@
      limits;
    - every non-finite value (NaN, sNaN, Infinity of either sign, whatever coefficient/exponent fields they
      carry) round-trips through String(); the coefficient digit string denotes the coefficient.
-   NOT PROVEN (decided on the implementation by the harness): Compose(Decompose(d)) = d and the SetFloat64 /
-   Float64 bit-exact round trips (strconv's shortest-digit formatting is not modelled); and that the Go code
+   - Compose(Decompose(d)) on a destination holding ANYTHING: a finite d comes back field for field; a special
+     value with its form (signaling NaN quiet, as documented) and sign, the destination's other fields untouched;
+     SetBytes(Bytes(n)) = n, every byte in 0..255.
+   NOT PROVEN (decided on the implementation by the harness): the SetFloat64 / Float64 bit-exact round trips
+   (strconv's shortest-digit formatting is not modelled); and that the Go code
    IS this model - checked by correspondence, byte for byte / field for field, on every generated Decimal
    (switch-over points -6/-7, zeros at -1/-2000/-2001, exponents at the package limits, pad lengths at
    multiples of 32, coefficients of any length). *)
 From Coq Require Import ZArith Bool List.
-From Apd Require Import Generated.Consts Model.Base Model.NumDigits Model.Decimal Model.Context Model.Text Spec.Grammar Proofs.Core Proofs.SetExponent Proofs.TextProofs Proofs.RoundTrip Proofs.RoundTripFull.
+From Apd Require Import Generated.Consts Model.Base Model.NumDigits Model.Decimal Model.Context Model.Text Model.Compose Spec.Grammar Proofs.ComposeProofs Proofs.Core Proofs.SetExponent Proofs.TextProofs Proofs.RoundTrip Proofs.RoundTripFull.
 Open Scope Z_scope.
 
 Theorem C13_coefficient_digits_roundtrip n : 0 <= n -> digits_val (digits_of n) = n /\ is_digits (digits_of n) = true.
@@ -55,6 +58,21 @@ Theorem C13_new_from_string_roundtrip est : est_in_range est -> forall fmtc d,
   new_from_string est (format_text fmtc d) = Ok (Some (d, c0, ENone)).
 Proof. exact (new_from_string_roundtrip est). Qed.
 Print Assumptions C13_new_from_string_roundtrip.
+
+Theorem C13_compose_inverts_decompose prev d : 0 <= coeff d ->
+  compose_decompose prev d =
+    Some (match form_of d with
+          | Finite => d
+          | Infinite => mkDec Infinite (neg d) (exp prev) (coeff prev)
+          | _ => mkDec NaN (neg d) (exp prev) (coeff prev)
+          end).
+Proof. exact (compose_decompose_roundtrip prev d). Qed.
+Print Assumptions C13_compose_inverts_decompose.
+
+Theorem C13_coefficient_bytes_roundtrip n : 0 <= n ->
+  bytes_val (bytes_of n) = n /\ List.Forall (fun b => 0 <= b < 256) (bytes_of n).
+Proof. intros Hn. split; [exact (bytes_roundtrip n Hn)|exact (bytes_are_bytes n Hn)]. Qed.
+Print Assumptions C13_coefficient_bytes_roundtrip.
 
 Example C13_finite_examples :
   (set_string_raw (format_G (mkDec Finite true (-7) 1)), set_string_raw (format_G (mkDec Finite false (-2000) 0)),
